@@ -206,6 +206,18 @@ Definition exec (s : st) (nonce : Z) (handler_ok : bool) : st * res :=
       else (s, Err E_Handler)
   end.
 
+(* the state the deferred handler runs on: GetPendingExecuteClaim + DeletePendingExecuteClaim come first, so a
+   handler that calls back into executeClaim for the nonce being executed finds nothing *)
+Definition exec_begin (s : st) (nonce : Z) : option st :=
+  match aget Z.eqb nonce (pending s) with
+  | None => None
+  | Some _ =>
+      Some {| proposal := proposal s; oracles := oracles s; by_bridger := by_bridger s; by_ext := by_ext s;
+              last_total := last_total s; last_obs := last_obs s; last_by := last_by s; atts := atts s;
+              pending := adel Z.eqb nonce (pending s); applied := applied s;
+              effects := effects s; vlog := vlog s |}
+  end.
+
 (* ---------- BondedOracle ---------- *)
 Definition bond (c : cfg) (s : st) (o bridger ext stake : Z) : st * res :=
   if negb (zmem o (proposal s)) then (s, Err E_NoOracle)
